@@ -124,6 +124,54 @@ def mutations(M, rng):
     if ifaces:
         m = clone(); d = pick_def(m, "interface")
         if d: m["exts"].append({"kind": "interface", "name": d["name"], "fields": [copy.deepcopy(d["fields"][0])]}); out.append(("extension-duplicate-interface-field", m, {}))
+    # the same NEW member added by two different extensions of one type
+    def newfield(name="fresh"): return {"name": name, "args": [], "type": {"n": "Int"}, "deprecated": None, "hidden": False}
+    for kind in ("object", "interface", "input"):
+        m = clone(); d = pick_def(m, kind)
+        if d:
+            mk = (lambda: {"name": "fresh", "type": {"n": "Int"}, "default": None}) if kind == "input" else newfield
+            for _ in range(2):
+                e = {"kind": kind, "name": d["name"], "fields": [mk()]}
+                if kind == "object": e["interfaces"] = []
+                m["exts"].insert(rng.randrange(len(m["exts"]) + 1), e)
+            if kind == "interface":     # keep implementers conforming: the only broken rule is the duplicate
+                for o in m["defs"]:
+                    if o["kind"] == "object" and d["name"] in (full.get(o["name"], {}).get("interfaces") or []): o["fields"].append(newfield())
+            out.append((f"two-extensions-add-same-field/{kind}", m, {}))
+    if unions and len(objs) >= 1:
+        m = clone(); d = pick_def(m, "union")
+        cand = [o["name"] for o in objs if o["name"] not in full_union_members(M, d["name"])]
+        if cand:
+            x = rng.choice(cand)
+            for _ in range(2): m["exts"].append({"kind": "union", "name": d["name"], "members": [x]})
+            out.append(("two-extensions-add-same-union-member", m, {}))
+    if enums:
+        m = clone(); d = pick_def(m, "enum")
+        for _ in range(2): m["exts"].append({"kind": "enum", "name": d["name"], "values": [{"name": "FRESH", "deprecated": None}]})
+        out.append(("two-extensions-add-same-enum-value", m, {}))
+    # rules broken on an interface that NO object implements (no implementer can mask or double the violation)
+    lonely = lambda fields: {"kind": "interface", "name": "Lonely", "fields": fields}
+    m = clone(); m["defs"].append(lonely([{"name": "f", "args": [{"name": "a", "type": wrap({"n": "GhostType"}, rng), "default": None}], "type": {"n": "Int"}, "deprecated": None, "hidden": False}]))
+    out.append(("undefined-argument-type/unimplemented-interface", m, {}))
+    m = clone(); m["defs"].append(lonely([{"name": "f", "args": [], "type": wrap({"n": "GhostType"}, rng), "deprecated": None, "hidden": False}]))
+    out.append(("undefined-field-type/unimplemented-interface", m, {}))
+    if objs:
+        m = clone(); m["defs"].append(lonely([{"name": "f", "args": [{"name": "a", "type": wrap({"n": rng.choice(objs)["name"]}, rng), "default": None}], "type": {"n": "Int"}, "deprecated": None, "hidden": False}]))
+        out.append(("object-type-as-argument/unimplemented-interface", m, {}))
+    # an object implementing TWO interfaces that declare a same-named field differently, honouring only the first
+    for variant in ("type", "argument-missing", "argument-type", "via-extension"):
+        m = clone()
+        fa = {"name": "shared", "args": [], "type": {"n": "Int"}, "deprecated": None, "hidden": False}
+        fb = copy.deepcopy(fa)
+        if variant in ("type", "via-extension"): fb["type"] = {"n": "String"}
+        elif variant == "argument-missing": fb["args"] = [{"name": "q", "type": {"n": "Int"}, "default": None}]
+        else:
+            fa["args"] = [{"name": "q", "type": {"n": "Int"}, "default": None}]; fb["args"] = [{"name": "q", "type": {"n": "String"}, "default": None}]
+        m["defs"] += [{"kind": "interface", "name": "IfA", "fields": [fa]}, {"kind": "interface", "name": "IfB", "fields": [fb]}]
+        both = {"kind": "object", "name": "Both", "fields": [copy.deepcopy(fa)], "interfaces": ["IfA"] if variant == "via-extension" else ["IfA", "IfB"]}
+        m["defs"].append(both)
+        if variant == "via-extension": m["exts"].append({"kind": "object", "name": "Both", "fields": [], "interfaces": ["IfB"]})
+        out.append((f"second-interface-not-honoured/{variant}", m, {}))
     for kind in ("object", "interface", "input"):
         m = clone(); d = pick_def(m, kind)
         if d:
@@ -133,6 +181,12 @@ def mutations(M, rng):
             m["exts"].append(e); out.append((f"extension-internal-duplicate-field/{kind}", m, {}))
     if M["directives"]:
         out.append(("non-awaitable-directive-hook", clone(), {"sync_hook": True}))
+    return out
+
+def full_union_members(M, name):
+    out = []
+    for d in M["defs"] + M["exts"]:
+        if d["kind"] == "union" and d["name"] == name: out += d["members"]
     return out
 
 def internal_dup_only(Mx, impl, m):
